@@ -50,7 +50,12 @@ tests), in two different functions/mechanisms, each of which
      a stack push, '<' vs '<=' tie-breaks, turning a prerequisite into an order-only one,
      touching a stamp before instead of after the command, memoising a result that depends on
      the caller, converting a string lazily after the script context is gone, emitting a
-     variable only when the first user needs it, ignoring one input in an up-to-date check.
+     variable only when the first user needs it, ignoring one input in an up-to-date check,
+     escaping '#' before instead of after the ';' split of a target-specific variable, writing
+     a step's environment as a prefix of its first word instead of exporting it, saving the
+     configuration after instead of before the build script ran, an early return placed before
+     the DESTDIR step, json.dumps(ensure_ascii=False), one dict shared by two modes via
+     dict.fromkeys, lstrip()/rstrip() with a character set where a prefix was meant.
      Do not hand in another one of those.  Look deeper:
      state carried from one run to the next (caches, saved files, time stamps), error and
      abort paths, features that are rarely combined, the second back end, tool-chain or
